@@ -878,6 +878,9 @@ def gen_marshal(rng, n, tier):
             objs = [("params", p0), ("msk", m0), ("ct", ct), ("sig", sg)] + [("sk", k) for k in ks]
             for (ty, oid) in objs:
                 L.append("wk_m %s %d %d" % (ty, oid, comp))
+    # parameters with ZERO slots (their marshalled form must reset the slot count of a reused object to 0)
+    pz, mz = S.setup(0, True)
+    for comp in (1, 0): L.append("wk_m params %d %d" % (pz, comp))
     # the unmarshal lines need the marshalled bytes: produced by a second pass in the check (see expand_marshal)
     L.append("#EXPAND-UNMARSHAL")
     for comp in (1, 0):
